@@ -217,6 +217,26 @@ namespace tsshapes
             return t;
         }
     };
+    using DynL = TSL<TS<Int>>;
+    struct ShapeDynL   // grow-only dynamic list: writing index i grows the list to i+1, skipped slots stay unset
+    {
+        using S = DynL;
+        static constexpr const char *name = "tsldyn";
+        static void apply(const Out<S> &out, const std::string &op, DateTime) { auto eq = op.find('='); out.set(static_cast<std::size_t>(std::stol(op.substr(0, eq))), Int{std::stol(op.substr(eq + 1))}); }
+        template <typename X> static Typed read(const X &x)
+        {
+            Typed t; std::vector<std::string> val, mod;
+            const std::size_t n = x.size();
+            for (std::size_t i = 0; i < n; ++i)
+            {
+                auto e = x[i];
+                val.push_back(std::to_string(i) + "=" + (e.valid() ? std::to_string(static_cast<long>(e.value())) : std::string{"?"}));
+                if (e.modified()) mod.push_back(std::to_string(i) + "=" + std::to_string(static_cast<long>(e.value())));
+            }
+            t.value = "{" + join(val) + "}"; t.modified = "{" + join(mod) + "}";
+            return t;
+        }
+    };
     struct ShapeTSB
     {
         using S = PairB;
